@@ -666,10 +666,26 @@ func (s *S) authCheck(fid, afid *go9p.SrvFid, aname string) error {
 	refuse := strings.HasPrefix(aname, "deny")
 	s.add(Entry{Kind: "authcheck", Conn: fid.Fconn.Id, Key: aname, AInc: ainc, User: un, Uid: uid})
 	if refuse {
+		// the error value of a refusal need not be a *go9p.Error (AuthCheck is
+		// declared to return error): the aname picks the dynamic type
+		switch {
+		case strings.HasPrefix(aname, "denyplain"):
+			return fmt.Errorf("authentication failed (plain error)") // *errors.errorString
+		case strings.HasPrefix(aname, "denywrapped"):
+			return fmt.Errorf("key verification: %w", &go9p.Error{Err: "authentication failed", Errornum: 1}) // *fmt.wrapError
+		case strings.HasPrefix(aname, "denyvalue"):
+			return authRefusal("authentication failed (value error type)")
+		}
 		return &go9p.Error{Err: "authentication failed", Errornum: 1}
 	}
 	return nil
 }
+
+// authRefusal is a refusal of AuthCheck whose dynamic type is neither a pointer
+// nor a *go9p.Error (anames beginning with "denyvalue").
+type authRefusal string
+
+func (a authRefusal) Error() string { return string(a) }
 
 // holdAuth is the Hold support of AuthRead / AuthWrite (keys "authread/<off>/<len>",
 // "authwrite/<off>/<len>"): it signals WaitEntered(key) if the harness Set the
@@ -773,6 +789,7 @@ type Config struct {
 	Auth    bool
 	Flush   int // FlushAbsent / FlushCancel / FlushIgnore
 	Debug   int
+	ProcOps bool // the ops value also implements go9p.SrvReqProcessOps (procops.go); default off
 }
 
 var logOnce sync.Once
@@ -801,6 +818,9 @@ func NewServer(c Config) *Server {
 		ops = OpsFlush{s}
 	default:
 		ops = OpsPlain{s}
+	}
+	if c.ProcOps {
+		ops = withProcOps(ops)
 	}
 	if !srv.Start(ops) {
 		panic("script: Srv.Start refused the ops value")
